@@ -86,8 +86,8 @@ def expected(kind, N, env, k, terms, obj):
 class OmegaAdapter(Adapter):
     module = 'OmegaModels'
 
-    def __init__(self, ctx, terms, nmax_koyama):
-        self.ctx, self.terms, self.nmax_koyama = ctx, terms, nmax_koyama
+    def __init__(self, ctx, terms, nmax_koyama, nmax=10 ** 9):
+        self.ctx, self.terms, self.nmax_koyama, self.nmax = ctx, terms, nmax_koyama, nmax
 
     def new(self, st):
         return {'obj': None, 'kind': 'none', 'N': 0, 'env': {}, 'par': None}
@@ -98,6 +98,8 @@ class OmegaAdapter(Adapter):
     def step(self, w, l):
         if l['act'] == 'Construct':
             kind, N = l['kind'], l['N']
+            if N > self.nmax:
+                return {'_skip': True}          # long chains are covered by the edge pass; histories use the shorter ones
             if kind in ('DiscreteKoyama', 'NonOverlappingFreelyJointedChain') and N > self.nmax_koyama:
                 return {'_skip': True}          # O(N^2) kernel loops / quadrature: bounded for run time, not judged
             try:
@@ -259,6 +261,8 @@ def run(ctx):
     ad = OmegaAdapter(ctx, terms, 40 if thorough else 12)
     w = Walker(ctx, g, ad, 'replay.OmegaModels')
     ne = w.cover_edges()
-    npaths, complete = w.all_paths(3 if thorough else 2, budget=None)
-    ctx.stage('replay.OmegaModels', graph_states=len(g.state), graph_edges=g.n_edges, edges_replayed=ne, paths=npaths, real_calls=w.steps,
-              skipped_steps=w.skipped)
+    # histories on ONE object: Construct; Calculate(g1); Calculate(g2) [; Calculate(g3)] - an evaluation must not depend on earlier ones
+    w2 = Walker(ctx, g, OmegaAdapter(ctx, terms, 12, nmax=1000 if thorough else 100), 'replay.OmegaModels.histories')
+    npaths, complete = w2.all_paths(4 if thorough else 3, budget=None)
+    ctx.stage('replay.OmegaModels', graph_states=len(g.state), graph_edges=g.n_edges, edges_replayed=ne, paths=npaths, real_calls=w.steps + w2.steps,
+              skipped_steps=w.skipped + w2.skipped)
